@@ -62,9 +62,7 @@ TRUSTED = ["miniredis v2.23.1 as the server semantics of the twin runs (the theo
            "harness/c12gen (own translator: go/parser -> C12_Table.v) and the raw side of the drivers "
            "(internal/verifdrv/c12raw.go), which restates the documented correspondence in Go",
            "int = int64 (64-bit platform): CInt is the identity"]
-ASSUMPTIONS = ["blocking nodes are opened on non-TLS configurations only (CreateBlockingNode drops the TLS setting: reported defect; "
-               "VERIF_C12_TLS_BLOCKING=1 includes them)",
-               "raw_err_zero: go-redis returns the zero value together with any error (hypothesis of c12_transparent)",
+ASSUMPTIONS = ["raw_err_zero: go-redis returns the zero value together with any error (hypothesis of c12_transparent)",
                "key_local + total deterministic owner function (C13) for c12_shard_equiv / c12_multidel; SPop/SRandMember "
                "(server-side randomness) are compared on the single-server twin only",
                "blocking BLPop* compared only when an element is present; GeoHash unsupported by miniredis (table only)",
@@ -406,12 +404,6 @@ def _with_restarts(rng, case):
 
 
 # ---- round 4: construction options, shard configurations, blocking nodes, per-command breaker runs ----
-# CreateBlockingNode does not pass the TLS setting on (blockingnode.go: no TLSConfig): a blocking node of a WithTLS()
-# instance cannot reach a TLS-only server.  Reported as a defect; until it is fixed (or recorded as a known finding
-# under class blocking-node-ignores-tls) blocking nodes are only opened on non-TLS configurations.
-TLS_BLOCKING = os.environ.get("VERIF_C12_TLS_BLOCKING") == "1"
-
-
 def _opts(rng, cluster=None, pw=None, tls=None):
     cluster = rng.random() < 0.5 if cluster is None else cluster
     pw = rng.random() < 0.6 if pw is None else pw
@@ -432,8 +424,6 @@ def _misconfigured(rng):
 def _with_blocking(rng, case):
     """create blocking nodes -> BLPop family -> close one -> ordinary commands on the same address (same *Redis, a
     second *Redis of that address, the still-open node) -> ..."""
-    if case.get("opts", {}).get("tls") and not TLS_BLOCKING:
-        return case
     ops = case["ops"]
     pos = min(len(ops), rng.randint(6, 12))
     blk = lambda slot: {"m": rng.choice(["BLPopCtx", "BLPopExCtx", "BLPopWithTimeoutCtx"]), "slot": slot, "form": rng.choice(["ctx", "plain"])}
@@ -518,7 +508,7 @@ def _runs(rng):
 def _fixed_round4(rng):
     """pass x {node, cluster} (and a TLS combination) are in every run, for the wrapper and for the sharded store"""
     out = [_diff(rng, _opts(rng, False, True, False), 30, blocking=True), _diff(rng, _opts(rng, True, True, False), 30, blocking=True),
-           _diff(rng, _opts(rng, False, False, True), 25, blocking=False), _diff(rng, _opts(rng, True, True, True), 25, blocking=False),
+           _diff(rng, _opts(rng, False, False, True), 25, blocking=True), _diff(rng, _opts(rng, True, True, True), 25, blocking=True),
            _misconfigured(rng),
            _kv(rng, _shards(rng, 2, [(False, True, False), (True, True, False)]), [100, 100], 40),
            _kv(rng, _shards(rng, 3, [(True, True, True), (False, True, False), (True, False, True)]), [100, 50, 100], 40),
@@ -564,7 +554,7 @@ def search(rng, problems):
     for cl in (False, True):
         for pw in (False, True):
             for tl in (False, True):
-                cases.append(_diff(rng, _opts(rng, cl, pw, tl), 25, blocking=not tl))
+                cases.append(_diff(rng, _opts(rng, cl, pw, tl), 25, blocking=True))
                 cases.append(_kv(rng, _shards(rng, 2, [(cl, pw, tl), (not cl, True, False)]), [100, 100], 30))
     return cases
 
@@ -737,21 +727,6 @@ def bucket(case, obs):
         if case["kind"] == "diff":
             out.append("brk:" + st["brk"])
     return out
-
-
-def classify(case, obs):
-    """blocking-node-ignores-tls: on a TLS configuration the first disagreement is a BLPop-family call that fails with a
-    connection error on the wrapper's blocking node while the raw client (same arguments, TLS) succeeds"""
-    if case.get("kind") != "diff" or not case.get("opts", {}).get("tls"):
-        return None
-    for op, st in zip(case["ops"], obs.get("steps", [])):
-        if "skip" in st:
-            continue
-        if st["w"]["e"] != st["r"]["e"] or st["w"]["v"] != st["r"]["v"] and st["w"]["e"] != "nil":
-            if op["m"].startswith("BLPop") and st["w"]["e"] == "Other:conn" and st["r"]["e"] == "nil":
-                return "blocking-node-ignores-tls"
-            return None
-    return None
 
 
 def explain(case, obs):
